@@ -646,6 +646,35 @@ def dao_row_attrs(data, conv, K, y, x, thr_eff):
             'npix': shape[0] * shape[1], 'daofind_mag': dmag}
 
 
+def make_sparse_scene(seed, shape):
+    """Noise-free scene on an exactly zero background: compact stars stamped into 7x7 boxes (zero
+    outside), isolated hot pixels, a two-pixel streak and a negative pixel -- sources whose cutout
+    holds a single positive pixel have undefined shape moments (0/0) and must be dropped."""
+    rng = np.random.default_rng(5000 + seed)
+    h, w = shape
+    img = np.zeros((h, w))
+    src = []
+    yy, xx = np.mgrid[0:7, 0:7]
+    cells = [(cy, cx) for cy in range(6, h - 6, 10) for cx in range(6, w - 6, 10)]
+    rng.shuffle(cells)
+    for k, (cy, cx) in enumerate(cells[:8]):
+        if k < 3:
+            s = float(rng.uniform(0.9, 1.4))
+            fx, fy = float(rng.uniform(-0.4, 0.4)), float(rng.uniform(-0.4, 0.4))
+            amp = float(rng.uniform(20, 60))
+            img[cy - 3:cy + 4, cx - 3:cx + 4] += amp * np.exp(-0.5 * (((xx - 3 - fx) / s) ** 2 + ((yy - 3 - fy) / s) ** 2))
+            src.append((cx + fx, cy + fy, amp, s, s, 0.0))
+        elif k < 6:
+            img[cy, cx] = float(rng.uniform(15, 90))                      # isolated hot pixel
+            src.append((float(cx), float(cy), float(img[cy, cx]), 0.0, 0.0, 0.0))
+        elif k == 6:
+            img[cy, cx], img[cy, cx + 1] = 50.0, 35.0                     # two-pixel streak
+            src.append((float(cx), float(cy), 50.0, 0.0, 0.0, 0.0))
+        else:
+            img[cy, cx] = -20.0
+    return img, src
+
+
 def make_scene(seed, shape):
     """Seeded star field: round / elongated / hot pixel / broad blob / saturated plateau / close pair /
     border and corner sources / negative hole + N(0, 0.02) noise.  Returns (image, source list)."""
@@ -733,7 +762,7 @@ def eval_finder(case):
 
     kind = case['finder']
     cfg = case['cfg']
-    data, _src = make_scene(case['scene_seed'], tuple(case['shape']))
+    data, _src = (make_sparse_scene if cfg.get('sparse') else make_scene)(case['scene_seed'], tuple(case['shape']))
     h, w = data.shape
     mask = None
     if cfg.get('mask'):
@@ -1065,6 +1094,16 @@ def _finder_configs(ctx):
         cfg = {'threshold': thrs[(k // 2) % 4], 'kernel_id': k % 4, 'min_separation': minseps[(k + k // 8) % 8],
                'exclude_border': bool((k // 2) % 2), 'mask': bool(k % 3 == 1)}
         out.append(('sf', cfg, shapes[(k // 4) % 2]))
+    # noise-free sparse scenes (single-pixel sources: undefined moments)
+    for k in range(12 if ctx.thorough else 4):
+        out.append(('sf', {'threshold': [1.0, 4.0][k % 2], 'kernel_id': k % 4, 'min_separation': minseps[k % 3],
+                           'exclude_border': False, 'mask': False, 'sparse': True}, shapes[k % 2]))
+        out.append(('iraf', {'threshold': [1.0, 4.0][k % 2], 'fwhm': [3.0, 2.0][k % 2], 'sigma_radius': 1.5,
+                             'min_separation': minseps[k % 3], 'exclude_border': False, 'mask': False, 'sparse': True},
+                    shapes[k % 2]))
+        out.append(('dao', {'threshold': [1.0, 4.0][k % 2], 'fwhm': [3.0, 2.0][k % 2], 'ratio': 1.0, 'theta': 0.0,
+                            'sigma_radius': 1.5, 'min_separation': minseps[k % 3], 'exclude_border': False,
+                            'mask': False, 'sparse': True}, shapes[k % 2]))
     seeds = rng.integers(0, 10 ** 6, size=len(out))
     return [(f, c, s, int(sd)) for (f, c, s), sd in zip(out, seeds)]
 
